@@ -86,6 +86,10 @@ func runC14(c *Ctx, idx int) {
 		if cyclic {
 			o.backEdges = 1 + r.Intn(4)
 		}
+		if r.Intn(4) == 0 {
+			o.outToOut = 0.5
+			o.maxOut = 3
+		}
 		if r.Intn(3) == 0 {
 			// some forward links carry the recurrent label (genes flagged recurrent are expressed so): still no cycle
 			o.flagForward = pick(r, 0.1, 0.3, 1.0)
@@ -101,7 +105,16 @@ func runC14(c *Ctx, idx int) {
 			c.Count("nets.dag_with_links_labelled_recurrent", 1)
 		}
 		viaGenesis := r.Intn(3) == 0
+		emptyModular := !viaGenesis && r.Intn(8) == 0
+		if emptyModular {
+			c.Count("nets.modular_constructor_without_modules", 1)
+		}
 		build := func() *network.Network {
+			if emptyModular {
+				// what expressing a genome whose modules are all switched off builds: the modular constructor with an empty
+				// list of control nodes - a network without modules all the same
+				return s.buildModular(nil)
+			}
 			if viaGenesis {
 				net, err := s.genome().Genesis(1)
 				if err != nil {
